@@ -231,6 +231,9 @@ rule(T, 'next', "Some('@')", ['post', 'assert'], ['C14'])
 # ---- every refinement obligation of a parser is part of "Ok iff the text is an expression of the grammar" (C03) and of the
 # agreement argument (C15: the five parsers refine spec parsers generated from tables that are equal on shared entries)
 rule(P, '*', '*', VAL, ['C03', 'C15'])
+# the value property of each evaluator speaks about "the expression's tree": the parser of its own stack building that tree is part of it
+for st, pid in (('f64', 'C05'), ('i64', 'C06'), ('decimal', 'C07'), ('complex', 'C08'), ('number', 'C09')):
+    rule(st + '-parser', '*', '*', VAL, [pid])
 # ---- C15, first clause as a theorem over the two specifications (unit i64number-agree)
 rule('i64number-agree', '*', '*', ['post', 'assert', 'precond', 'decreases', 'invariant'], ['C15'])
 rule('f64number-agree', '*', '*', ['post', 'assert', 'precond', 'decreases', 'invariant'], ['C15'])
